@@ -251,6 +251,11 @@ func secretStep(r *gen.Rng, vers map[string]int) string {
 		act = "+"
 		v = -v
 	}
+	if act == "~" && v+world.ChainStep < world.SharedVersion && r.Chance(1, 3) {
+		// same leaf and key, another intermediate chain
+		vers[key] = v + world.ChainStep
+		return fmt.Sprintf("sec~%s!tls!%d!a.local", key, vers[key])
+	}
 	vers[key] = v + 1
 	return fmt.Sprintf("sec%s%s!tls!%d!a.local", act, key, vers[key])
 }
@@ -312,6 +317,9 @@ var c15corpus = []string{
 	"hist svc+d/app!http:80:8080!- sec+d/tls1!tls!1!a.local sec+d/tls2!tls!1!c.local ing+d/i1@1!haproxy,-!-!a.local>/:Prefix:app:80;b.local>/:Prefix:app:80;c.local>/:Prefix:app:80!a.local+b.local>tls1;c.local>tls2!- sync sec~d/tls1!tls!2!a.local sync",
 	// secret deleted, then added again
 	"hist svc+d/app!http:80:8080!- sec+d/tls1!tls!1!a.local ing+d/i1@1!haproxy,-!-!a.local>/:Prefix:app:80!a.local>tls1!- sync sec-d/tls1 sync sec+d/tls1!tls!2!a.local sync",
+	// the secret is replaced in place with the SAME leaf and key and another intermediate chain (version 1 -> 101,
+	// see world.ChainStep): the served file content must follow (seed C15d: chain outside the change-detection hash)
+	"hist svc+d/app!http:80:8080!- sec+d/tls1!tls!1!a.local sec+d/tls2!tls!1!c.local ing+d/i1@1!haproxy,-!-!a.local>/:Prefix:app:80;c.local>/:Prefix:app:80!a.local>tls1;c.local>tls2!- sync sec~d/tls1!tls!101!a.local sync sec~d/tls1!tls!201!a.local sync",
 	// secret that did not exist at the first sync
 	"hist svc+d/app!http:80:8080!- ing+d/i1@1!haproxy,-!-!a.local>/:Prefix:app:80!a.local>tls1!- sync sec+d/tls1!tls!1!a.local sync",
 }
